@@ -25,6 +25,8 @@ encoding is *not* injective on whole records (bytes can be moved between adjacen
 import Aergo.Lemmas.Enc
 import Aergo.Lemmas.Merkle
 import Aergo.Lemmas.Receipt
+import Aergo.Lemmas.ChainId
+import Aergo.Lemmas.Hardfork
 
 namespace Aergo.Props.C19
 open Aergo.Enc Aergo.Gen.Enc
@@ -480,5 +482,108 @@ theorem txs_root_binds (H : Bytes → Bytes) (hH : ∀ x, (H x).length = 32) (ze
   · exact .inr h1
 
 end receipts
+
+/-! ## Part 4 — chain identifier codec (types/genesis.go, types/blockchain.go `MakeChainId`) -/
+section chainid
+open Aergo.ChainId
+
+/-- **chainid_roundtrip.** `Read (Bytes c) = c` for every chain id whose version is an int32 and whose
+magic and consensus strings contain no "/" (the separator `Bytes` inserts and `Read` splits on). -/
+theorem chainid_roundtrip (c : ChainID) (hw : c.wf = true) : read (bytes c) = some c :=
+  read_bytes c hw
+
+/-- Without the "/" guard `Read` may *reject* what `Bytes` wrote (three or more parts), but it never
+returns a different identifier: for every chain id, reading its bytes back fails or yields exactly it.
+(chain/chaindb.go `GetGenesisInfo` keeps the gob-stored copy of the id when `Read` fails.) -/
+theorem chainid_read_exact_or_error (c c' : ChainID) (h1 : -2147483648 ≤ c.version) (h2 : c.version < 2147483648)
+    (h : read (bytes c) = some c') : c' = c :=
+  read_bytes_exact c c' h1 h2 h
+
+/-- The encoding is binding: different (well-formed) chain ids have different bytes. -/
+theorem chainid_bytes_injective (c c' : ChainID) (hw : c.wf = true) (hw' : c'.wf = true)
+    (h : bytes c = bytes c') : c = c' := by
+  have h1 := read_bytes c hw
+  rw [h, read_bytes c' hw'] at h1
+  exact (Option.some.inj h1).symm
+
+-- tests on sample values: a well-formed id; an id with "/" in the magic is rejected on read-back
+example : ({ version := -3, publicNet := true, mainNet := false, magic := [97, 46, 98], consensus := [100] } : ChainID).wf = true := by decide
+example : read (bytes { version := 1, publicNet := true, mainNet := false, magic := [97, 47, 98], consensus := [100] }) = none := by decide
+
+/-- `MakeChainId cid v` on an id of at least 4 bytes is the id with its 4-byte version prefix replaced
+(whichever branch the code takes); on a shorter one `cid[:4]` panics. -/
+theorem makeChainId_spec (cid : Bytes) (v : Int) :
+    (4 ≤ cid.length → makeChainId cid v = some (le 4 (u32OfI32 v) ++ cid.drop 4)) ∧
+    (cid.length < 4 → makeChainId cid v = none) :=
+  ⟨makeChainId_eq cid v, makeChainId_panics cid v⟩
+
+/-- The result carries the requested version and is `ChainIdEqualWithoutVersion` to the original. -/
+theorem makeChainId_laws (cid out : Bytes) (v : Int) (h1 : -2147483648 ≤ v) (h2 : v < 2147483648)
+    (h : makeChainId cid v = some out) :
+    decodeVersion out = v ∧ eqWithoutVersion out cid = true ∧ out.length = cid.length := by
+  refine ⟨decodeVersion_make cid out v h1 h2 h, eq_make cid out v h, ?_⟩
+  by_cases hl : cid.length < 4
+  · rw [makeChainId_panics cid v hl] at h; cases h
+  · rw [makeChainId_eq cid v (by omega)] at h
+    simp only [Option.some.injEq] at h
+    subst h
+    simp [Aergo.Receipt.le_length' 4]; omega
+
+/-- On encoded chain ids `MakeChainId` is "set the version field": the new bytes read back as the same
+id with version `v` (this is how a block's chain id follows the hardfork version of its height). -/
+theorem makeChainId_bytes (c : ChainID) (v : Int) (hw : c.wf = true) (h1 : -2147483648 ≤ v) (h2 : v < 2147483648) :
+    (makeChainId (bytes c) v).bind read = some { c with version := v } := by
+  rw [make_bytes]
+  simp only [Option.bind_some]
+  apply read_bytes
+  simp only [ChainID.wf, Bool.and_eq_true, decide_eq_true_eq] at hw ⊢
+  exact ⟨⟨⟨h1, h2⟩, hw.1.2⟩, hw.2⟩
+
+/-- `ChainIdEqualWithoutVersion` on two encoded ids holds exactly when they agree on every field but
+the version. -/
+theorem chainIdEqualWithoutVersion_iff (c c' : ChainID) (hw : c.wf = true) (hw' : c'.wf = true) :
+    eqWithoutVersion (bytes c) (bytes c') = true ↔ c' = { c with version := c'.version } :=
+  eq_bytes_iff c c' hw hw'
+
+end chainid
+
+/-! ## Part 5 — hardfork version of a height (config/hardfork_gen.go, config/hardfork.go)
+
+`Hardfork.version`, `validate`, `checkCompatibility`, `fixDbConfig` are hand transcriptions (the Go
+functions iterate struct fields by reflection) for a configuration with any number of fork heights,
+tied to the real functions by the harness (`ver`, `compat`, `fix` operations; every height next to a
+fork height; all 256 configurations over heights 0..3 exhaustively). -/
+section hardfork
+open Aergo.Hardfork
+
+/-- **version_monotone.** For every configuration — sorted or not, any number of fields — the version
+assigned to a height never decreases as the height grows. -/
+theorem version_monotone (c : Config) (h h' : Nat) (hle : h ≤ h') : version c h ≤ version c h' :=
+  verFrom_mono h h' 0 c hle
+
+/-- The version is 0 (no fork reached) or between 2 and the number of fields + 1. -/
+theorem version_range (c : Config) (h : Nat) : version c h = 0 ∨ (2 ≤ version c h ∧ version c h ≤ c.length + 1) := by
+  have := verFrom_range h 0 c
+  unfold version; omega
+
+/-- **version_stable.** If `CheckCompatibility(dbCfg, best)` lets the node start with configuration
+`c`, then every height up to the best block has, under `c`, the version it had under the configuration
+recorded in the database: versions of existing blocks are stable across restarts. -/
+theorem version_stable (c : Config) (d : DbConfig) (best : Nat) (hok : checkCompatibility c d best = .ok)
+    (h : Nat) (hh : h ≤ best) : version c h = version (dbAsConfig d c.length) h := by
+  unfold checkCompatibility at hok
+  split at hok
+  · cases hok
+  · split at hok
+    · cases hok
+    · rename_i hm
+      have := stable_aux d best h 0 c hh hm
+      simpa [version, dbAsConfig, List.range_eq_range'] using this
+
+-- tests on sample values (mainnet-like heights): accepted restart, refused restart, the version table
+example : checkCompatibility [10, 20, 30, 40] { entries := [(2, 10), (3, 20), (4, 35), (5, 50)], badKeys := 0 } 25 = .ok := by decide
+example : checkCompatibility [10, 20, 30, 40] { entries := [(2, 10), (3, 22), (4, 30), (5, 40)], badKeys := 0 } 25 = .fork 3 := by decide
+example : [0, 9, 10, 19, 20, 39, 40, 1000].map (version [10, 20, 30, 40]) = [0, 0, 2, 2, 3, 4, 5, 5] := by decide
+end hardfork
 
 end Aergo.Props.C19
